@@ -82,7 +82,7 @@ def strategy(tier):
         # storage dtype of the matrix: scipy accepts integer-typed sparse matrices (the solvers convert them)
         case["mdtype"] = draw(st.sampled_from(["float", "float", "float", "int64", "int32"]))
         case["rhs"] = [draw(st.integers(-16, 16)) / 8.0 for _ in range(n)]
-        case["rhs_scale"] = draw(st.sampled_from([1e-3, 1.0, 1.0, 1e3]))
+        case["rhs_scale"] = draw(st.sampled_from([1e-3, 1.0, 1.0, 1e3, 0.0, 1e-9]))  # (zero and below-tolerance right-hand sides)
         case["trans"] = draw(st.booleans())
         case["guess"] = draw(st.sampled_from(["none", "zero", "exact", "random"]))
         case["guess_vec"] = [draw(st.integers(-16, 16)) / 8.0 for _ in range(n)] if case["guess"] == "random" else None
